@@ -26,7 +26,7 @@ type c09Case struct {
 	arms    []c09Arm
 	deflt   bool
 	dup     bool // some arm is written more than once (never together with a complete cover)
-	ctx     int // nesting context
+	ctx     int  // nesting context
 	// a second match on the SAME union inside the same top-level definition
 	second *c09Case
 	shape  int // 1: second match inside the first arm of this one; 2: this one, then the second as the next statement; 3: this one in the then branch, the second in the else branch; 4: second first, then this one
@@ -41,9 +41,9 @@ const (
 	ctxInnerArm
 	ctxLambda
 	ctxPipeArg
-	ctxShadow // after an earlier match (on another union) whose arm binder has the scrutinee's name
-	ctxCallTarget // the target is a call of a generic function: its type is known only after inference
-	ctxBareLambda // the target is an un-annotated lambda parameter (typed only by the enclosing call)
+	ctxShadow      // after an earlier match (on another union) whose arm binder has the scrutinee's name
+	ctxCallTarget  // the target is a call of a generic function: its type is known only after inference
+	ctxBareLambda  // the target is an un-annotated lambda parameter (typed only by the enclosing call)
 	ctxEncodedName // the union is called G_int and a generic union G<T> is instantiated at int next to it
 	ctxGroupLater  // the union is declared later in a `type ... and ...` group than a generic union holding it; the target is that payload
 	ctxGenericSelf // the union itself is generic (payloads of T), matched at the instantiation int
